@@ -479,14 +479,15 @@ the dropped filter is answered "kept" by `CheckTrace`, with the rate (as `uint32
 of its most recent kept record. -/
 theorem kept_answered (cfg : Cfg) (hinj : HashInj cfg.hash) (kc dc : Nat) (ops : List Op) (id : Nat)
     (e : Entry) (hfind : lruFind (run cfg kc dc ops).kept id = some e)
-    (hnd : (run cfg kc dc ops).cur.ids.contains id = false) :
+    (hnd : (run cfg kc dc ops).cur.ids.contains id = false)
+    (hnr : recentHas (run cfg kc dc ops) id = false) :
     ∃ rate why, lastKept ops id = some (rate, why) ∧
       (step cfg (run cfg kc dc ops) (.checkTrace id false)).2 = .ans (.kept (u32 rate) why e.ev e.se e.sl e.sp) := by
   obtain ⟨hid, hmem⟩ := lruFind_some hfind
   obtain ⟨r, why, h1, h2, h3⟩ := (kinv_run cfg hinj kc dc ops).2 e hmem
   refine ⟨r, why, hid ▸ h1, ?_⟩
   have hnd' : id ∉ (run cfg kc dc ops).cur.ids := by simpa using hnd
-  simp [step, hnd', hfind, ansOf, h2, h3, reasonStr]
+  simp [step, hnd', hnr, hfind, ansOf, h2, h3, reasonStr]
 
 /-- the same for `CheckSpan` when the id is not in the recent-drop set either: the answer carries
 the counters after counting this span -/
@@ -509,22 +510,26 @@ dropped filter does not claim is answered "kept" with its recorded rate and reas
 theorem kept_answered_recent (cfg : Cfg) (hinj : HashInj cfg.hash) (kc dc : Nat) (ops : List Op) (id : Nat)
     (hnores : ∀ o ∈ ops, isResize o = false)
     (hrecent : id ∈ (dedup (touches (transcript cfg (init cfg kc dc) ops))).take kc)
-    (hnd : (run cfg kc dc ops).cur.ids.contains id = false) :
+    (hnd : (run cfg kc dc ops).cur.ids.contains id = false)
+    (hnr : recentHas (run cfg kc dc ops) id = false) :
     ∃ rate why ev se sl sp, lastKept ops id = some (rate, why) ∧
       (step cfg (run cfg kc dc ops) (.checkTrace id false)).2 = .ans (.kept (u32 rate) why ev se sl sp) := by
   rw [← lru_refines_recency cfg kc dc ops hnores] at hrecent
   have hs := (lruFind_isSome_iff _ id).mpr hrecent
   obtain ⟨e, he⟩ := Option.isSome_iff_exists.mp hs
-  obtain ⟨rate, why, h1, h2⟩ := kept_answered cfg hinj kc dc ops id e he hnd
+  obtain ⟨rate, why, h1, h2⟩ := kept_answered cfg hinj kc dc ops id e he hnd hnr
   exact ⟨rate, why, _, _, _, _, h1, h2⟩
 
 /-! ## Dropped side -/
 
-/-- **dropped_wins** — in every state, an id the current dropped filter holds is answered
-"dropped" by `CheckTrace`, whatever the kept list says (the kept list is not even consulted). -/
-theorem dropped_wins_trace (cfg : Cfg) (s : St) (id : Nat) (fp : Bool) (h : id ∈ s.cur.ids) :
+/-- **dropped_wins** — in every state, an id the current dropped filter or the recent-drop set
+holds is answered "dropped" by `CheckTrace`, whatever the kept list says. -/
+theorem dropped_wins_trace (cfg : Cfg) (s : St) (id : Nat) (fp : Bool)
+    (h : id ∈ s.cur.ids ∨ recentHas s id = true) :
     (step cfg s (.checkTrace id fp)).2 = .ans .dropped := by
-  simp [step, h]
+  rcases h with h | h
+  · by_cases hr : recentHas s id = true <;> simp [step, h, hr]
+  · simp [step, h]
 
 /-- **dropped_wins** for `CheckSpan`: the recent-drop set or the filter is enough. -/
 theorem dropped_wins_span (cfg : Cfg) (s : St) (id kind : Nat) (fp : Bool)
@@ -699,7 +704,7 @@ theorem dropped_until_rotation (cfg : Cfg) (s : St) (suf : List Op) (id : Nat) (
     (step cfg (runFrom cfg s suf) (.checkTrace id fp)).2 = .ans .dropped ∧
     (step cfg (runFrom cfg s suf) (.checkSpan id kind fp)).2 = .ans .dropped := by
   have h := cur_mem_run cfg id suf s hin hl hr
-  exact ⟨dropped_wins_trace cfg _ id fp h, dropped_wins_span cfg _ id kind fp (Or.inl h)⟩
+  exact ⟨dropped_wins_trace cfg _ id fp (Or.inl h), dropped_wins_span cfg _ id kind fp (Or.inl h)⟩
 
 /-- **dropped_until_rotation** at the level of histories: after any history whose add queue is
 not full, a drop record followed by a drain of the whole queue in which the id is not kicked out
@@ -917,13 +922,14 @@ theorem wfr_run (cfg : Cfg) (kc dc : Nat) (ops : List Op) : WFR cfg (run cfg kc 
   | nil => intro s h; exact h
   | cons o t ih => intro s h; exact ih _ (wfr_step cfg s o h)
 
-/-- **recent_covers_gap** — after any history, a drop record is answered "dropped" by `CheckSpan`
+/-- **recent_covers_gap** — after any history, a drop record is answered "dropped" by both lookups
 through whatever happens next (queue overflow, no drain at all, filter rotations, kept records of
 the same trace) as long as the clock has advanced by at most the recent-drop TTL since — the expiry
 instant included. -/
 theorem recent_covers_gap (cfg : Cfg) (kc dc : Nat) (pre suf : List Op) (id kind : Nat) (fp : Bool)
     (hadv : (advTotal suf : Int) ≤ cfg.ttl) :
-    (step cfg (run cfg kc dc (pre ++ [.recDrop id] ++ suf)) (.checkSpan id kind fp)).2 = .ans .dropped := by
+    (step cfg (run cfg kc dc (pre ++ [.recDrop id] ++ suf)) (.checkSpan id kind fp)).2 = .ans .dropped ∧
+    (step cfg (run cfg kc dc (pre ++ [.recDrop id] ++ suf)) (.checkTrace id fp)).2 = .ans .dropped := by
   obtain ⟨hnd, httl⟩ := wfr_run cfg kc dc pre
   have hg : Guard (run cfg kc dc (pre ++ [.recDrop id])).recent id (run cfg kc dc pre).recent.now
       ((run cfg kc dc pre).recent.now + cfg.ttl) cfg.ttl := by
@@ -938,7 +944,7 @@ theorem recent_covers_gap (cfg : Cfg) (kc dc : Nat) (pre suf : List Op) (id kind
   have : run cfg kc dc (pre ++ [.recDrop id] ++ suf) = runFrom cfg (run cfg kc dc (pre ++ [.recDrop id])) suf := by
     simp only [run, runFrom_append]
   rw [this]
-  exact dropped_wins_span cfg _ id kind fp (Or.inr hh)
+  exact ⟨dropped_wins_span cfg _ id kind fp (Or.inr hh), dropped_wins_trace cfg _ id fp (Or.inr hh)⟩
 
 
 end Refinery.Lemmas.SentCache
